@@ -17,7 +17,7 @@ import time
 
 VERIF = os.path.dirname(os.path.dirname(os.path.abspath(__file__)))
 REPO = os.environ.get("VERIF_REPO", "/repo")
-BUILD_DIR = os.path.join(VERIF, ".build")
+BUILD_DIR = os.environ.get("VERIF_BUILD_DIR") or os.path.join(VERIF, ".build")
 TARGET_DIR = os.path.join(BUILD_DIR, "target")
 GARDEN = os.path.join(TARGET_DIR, "debug", "garden")
 GUARD = "wilfred_garden_verif"
